@@ -8,6 +8,8 @@
 //   rec <errKind> <hasStore> <retryMode> <u.m.p.l1.l2.x>...
 //        pure: real appendBatchErrorCompletionsOrRecoveriesAndRetry with scripted lookups/retry appender (hook)
 //        out: cl=<class per item> sq=<seq per item> cm=<committed bits> rs=<retry request sizes>
+//   drain <seq>...                                    pure: real recordAppendCompletion + popNextAppendCompletion loop (hook)
+//        out: per arrival the batch sequences drained, `|`-separated (`-` = none)
 //   traffic <nch> <senders> <calls> <maxItems> <dupPct> <failPct> <latUs> <admCap> <backlog> <fenced> <router> <coalesce> <seed>
 //        concurrent SendBatch / SubmitLocal callers over several channels against a REAL Group (+Router) with a
 //        fake Appender / IdempotencyStore port (per-channel serialiser = the reference map; random latencies,
@@ -115,6 +117,35 @@ func genC29(g *Gen) {
 			g.Count(fmt.Sprintf("rec:mixed-retry-mode-%d", retry))
 		}
 		g.Op("rec", "%d %d %d%s", errKind, hasStore, retry, sb.String())
+	}
+	// ordered completion drain: completions of append batches 0..n-1 arriving in any order, with
+	// duplicates and stale arrivals
+	for i := 0; i < g.N*3; i++ {
+		n := g.R.Range(1, 7)
+		perm := make([]int, n)
+		for k := range perm {
+			perm[k] = k
+		}
+		for k := n - 1; k > 0; k-- {
+			j := g.R.Intn(k + 1)
+			perm[k], perm[j] = perm[j], perm[k]
+		}
+		if g.R.Chance(30) {
+			perm = append(perm, perm[g.R.Intn(n)])
+			g.Count("drain:duplicate-arrival")
+		}
+		if g.R.Chance(20) {
+			perm = perm[:len(perm)-1]
+			g.Count("drain:missing-completion")
+		}
+		inOrder := true
+		for k := 1; k < len(perm); k++ {
+			inOrder = inOrder && perm[k-1] < perm[k]
+		}
+		if !inOrder {
+			g.Count("drain:out-of-order-arrival")
+		}
+		g.Op("drain", "%s", strings.ReplaceAll(c29Ints(perm), ",", " "))
 	}
 	for i := 0; i < g.N; i++ {
 		if i%6 == 0 {
@@ -404,6 +435,8 @@ func (r *c29Runner) Step(op string) string {
 		return c29Rec_(f[1:])
 	case "traffic":
 		return c29Traffic(f[1:])
+	case "drain":
+		return c29Drain(f[1:])
 	}
 	return "bad-op"
 }
@@ -482,6 +515,30 @@ func c29Rec_(f []string) string {
 		}
 	}
 	return fmt.Sprintf("cl=%s sq=%s cm=%s rs=%s", c29Ints(class), c29Ints(sq), c29Ints(cm), c29Ints(sizes))
+}
+
+func c29Drain(f []string) string {
+	if len(f) == 0 {
+		return "bad-op"
+	}
+	arr := make([]uint64, 0, len(f))
+	for _, x := range f {
+		v, err := strconv.Atoi(x)
+		if err != nil || v < 0 || v > 1<<20 {
+			return "bad-op"
+		}
+		arr = append(arr, uint64(v))
+	}
+	groups := channelappend.VerifCompletionDrain(arr)
+	parts := make([]string, len(groups))
+	for i, g := range groups {
+		xs := make([]int, len(g))
+		for k, v := range g {
+			xs[k] = int(v)
+		}
+		parts[i] = c29Ints(xs)
+	}
+	return strings.Join(parts, "|")
 }
 
 func c29Traffic(f []string) string {
